@@ -409,7 +409,7 @@ def gen_config(rng, fault_class=None):
         "faults": faults_on,
         "fault_kinds": fault_kinds,
         "fault_rate": rng.choice([0.15, 0.3, 0.45]) if faults_on else 0.0,
-        "p_retry": rng.choice([0.0, 0.5, 1.0]),
+        "p_retry": rng.choice([0.0, 0.5, 1.0, 1.0]),
         "p_scout": rng.choice([0.5, 1.0, 1.0]),
         "p_garbage": rng.choice([0.0, 0.0, 0.05]),
         "p_dropgc": rng.choice([0.0, 0.1, 0.2]),
@@ -557,8 +557,8 @@ class _new(int):
     """An operand id that is already in the new numbering (emit must not translate it)."""
 
 
-def gen_program(rng, fault_class=None):
-    """Return {"config":…, "steps":[…]}: the flat, globally numbered step list."""
+def gen_scripts(rng, fault_class=None):
+    """The schedule-independent part of a program: swarm configuration, client scripts, rendered texts."""
     cfg = gen_config(rng, fault_class)
     scripts = []
     roles = []
@@ -569,6 +569,35 @@ def gen_program(rng, fault_class=None):
     for a in range(cfg["n_aggressors"]):
         scripts.append(derive_aggressor(rng, cfg, victims[a % len(victims)]))
         roles.append("aggressor")
+    style = cfg["style"]
+    for c, script in enumerate(scripts):
+        for op in script:
+            if op[0] == "parse":
+                # the aggressor renders with its own style half of the time
+                stl = style if roles[c] == "victim" or rng.random() < 0.5 else {"q": "'", "sp": rng.random() < 0.3, "par": rng.random() < 0.5}
+                op.append(render(op[1], stl))
+    return {"config": cfg, "roles": roles, "scripts": scripts}
+
+
+SCHEDULES = ("aggressor_first", "interleaved", "interleaved", "victim_first")
+
+
+def schedule_program(rng, base, variant=False, fault_class=None):
+    """One schedule + fault sequence over fixed client scripts -> flat, globally numbered step list.
+
+    ``variant`` True: draw a fresh schedule mode, fault class and shim flag (another history over the
+    same scripts; the cold references are shared because cones are per client)."""
+    cfg = dict(base["config"])
+    roles = base["roles"]
+    scripts = base["scripts"]
+    if variant:
+        cfg["schedule"] = rng.choice(SCHEDULES)
+        cfg["faults"] = (rng.random() < 0.5) if fault_class is None else bool(fault_class)
+        cfg["fault_rate"] = rng.choice([0.15, 0.3, 0.45]) if cfg["faults"] else 0.0
+        if cfg.get("marathon"):
+            cfg["fault_rate"] /= 3
+        cfg["shims"] = rng.random() < 0.5
+        cfg["p_echo"] = rng.choice([0.0, 0.15, 0.35, 0.6])
     # schedule: which client issues its next op
     cursors = [0] * len(scripts)
     order = []
@@ -584,12 +613,18 @@ def gen_program(rng, fault_class=None):
     else:
         first = "aggressor" if mode == "aggressor_first" else "victim"
         seq = [c for c, r in enumerate(roles) if r == first] + [c for c, r in enumerate(roles) if r != first]
+        if variant:
+            # also vary which victim / which aggressor goes first
+            head = [c for c in seq if roles[c] == first]
+            tail = [c for c in seq if roles[c] != first]
+            rng.shuffle(head)
+            rng.shuffle(tail)
+            seq = head + tail
         for c in seq:
             order.extend([c] * len(scripts[c]))
     cursors = [0] * len(scripts)
     local2global = [dict() for _ in scripts]
     steps = []
-    style = cfg["style"]
     for c in order:
         li = cursors[c]
         cursors[c] += 1
@@ -600,9 +635,7 @@ def gen_program(rng, fault_class=None):
         st = {"id": sid, "c": c, "op": kind}
         if kind == "parse":
             st["ast"] = op[1]
-            # the aggressor renders with its own style half of the time
-            stl = style if roles[c] == "victim" or rng.random() < 0.5 else {"q": "'", "sp": rng.random() < 0.3, "par": rng.random() < 0.5}
-            st["text"] = render(op[1], stl)
+            st["text"] = op[2]
         elif kind == "text":
             st["op"] = "parse"
             st["text"] = op[1]
@@ -626,6 +659,28 @@ def gen_program(rng, fault_class=None):
                     else:
                         st["fault"]["at"] = _log_uniform(rng, 1, 600)
     return {"config": cfg, "roles": roles, "steps": steps}
+
+
+def gen_program(rng, fault_class=None):
+    """Return {"config":…, "roles":…, "steps":[…]}: scripts and their first schedule from one PRNG."""
+    return schedule_program(rng, gen_scripts(rng, fault_class))
+
+
+VARIANTS = 3  # schedules explored per set of client scripts
+
+
+def program_for_run(verif_seed, shard, run, fault_class=None):
+    """Run r of a shard = schedule (r mod VARIANTS) of script set (r div VARIANTS).
+    Returns (program, envs, group id). Everything derives from run_seed(...)."""
+    group = run - run % VARIANTS
+    rng = random.Random(run_seed(verif_seed, shard, group))
+    base = gen_scripts(rng, fault_class)
+    first = schedule_program(rng, base)
+    envs = make_envs(first["steps"])
+    if run == group:
+        return first, envs, group
+    vr = random.Random(run_seed(verif_seed, shard, run))
+    return schedule_program(vr, base, variant=True, fault_class=fault_class), envs, group
 
 
 # --------------------------------------------------------------------------
